@@ -172,7 +172,7 @@ def main():
             if text not in wl and not a.freeze_baseline:
                 ctx.undecided.append('%s: trusted construct not in whitelist (line %d): %s' % (unit, no, text))
         # vacuity guard: twin with `ensures false` on every function under contract
-        if P.get('twin', True) and meta['functions']:
+        if P.get('twin', True) and meta['functions'] and not att.fatal:
             tr = run_unit(ctx, unit, twin=True)
             if tr is not None:
                 tu, tmeta, tres, tatt = tr
@@ -243,7 +243,7 @@ def main():
         if oid not in base_all:
             ctx.undecided.append('obligation %s fails but was never in the baseline (not a verdict)' % oid)
             continue
-        if P.get('classify'):
+        if P.get('classify') and oid.split('/')[1] not in P.get('classify_exempt', ()):
             verdict_, why = P['classify'](ctx, oid, meta, baseline)
             if verdict_ != 'violation':
                 ctx.undecided.append('obligation %s failed: %s' % (oid, why))
